@@ -3,6 +3,7 @@ CONSTANTS
   MaxPause = 0
   MaxCancel = 0
   MaxSteps = 12
+  MaxRerun = 0
   Own = {"C01","C02","C03","C04","C07","C15","C18","C19"}
   KnownSigs = {"KF_C07_late_arrival_after_fire"}
 INVARIANT NoViolation
